@@ -137,7 +137,14 @@ def gen_history(rng, i: int) -> dict:
     else:
         ops.append({"op": "unprotect", "fl": rng.choice(("sync", "async")), "net": "online",
                     "blob": {"rk": 0, "sid": SID, "pos": [L0, l1p, l2p], "mode": "nonce", "data": 5}})
-    for _ in range(rng.randint(2, 6)):
+    r2 = __import__("random").Random(plan["seed"])
+    n_un = rng.randint(2, 6)
+    prot_at = r2.randrange(n_un) if r2.random() < 0.5 else -1
+    for k_ in range(n_un):
+        if k_ == prot_at:
+            # a protect naming the root key in between: served from the cached seed when that covers "now"; whatever it leaves in the
+            # cache must still derive every earlier position
+            ops.append({"op": "protect", "fl": r2.choice(("sync", "async")), "sid": SID, "rk": 0, "net": "offline", "data": 3})
         r = rng.random()
         if r < 0.2:
             p = (l1p, l2p)
@@ -176,6 +183,19 @@ def run_history(plan) -> dict:
                                              f"online unprotect at the envelope's own position ({l1p},{l2p}) against a conforming DC failed: {first.outcome.exc!r}"),
                     "digest": tr.world.digest(), "key": common.key_hash(plan), "fired": {}, "probes": probes, "vtime_ns": 0}
         for ot in tr.ops[1:]:
+            if ot.op["op"] == "protect":
+                if (l1p, l2p) == (31, 31):
+                    probes["history_protect_from_seed"] = 1
+                    try:
+                        ok = ot.outcome.kind == "ok" and cms.unprotect_parsed(cms.parse_blob(ot.outcome.value), tr.root_keys[0])[0] == ot.plaintext
+                    except Exception:  # noqa: BLE001
+                        ok = False
+                    if not ok:
+                        et, frame = drive.exc_sig(ot.outcome)
+                        viol = common.violation("C02", "derivation", "history-protect", et if ot.outcome.kind != "ok" else "blob-not-openable", frame, "",
+                                                f"seed material at (31,31) covers the current interval but the offline protect gave {ot.outcome.brief()} {ot.outcome.exc!r}")
+                        break
+                continue
             pos = tuple(ot.blob_spec["pos"][1:])
             if pos <= (l1p, l2p):
                 probes["history_cover"] = probes.get("history_cover", 0) + 1
@@ -215,7 +235,7 @@ class C02(common.Check):
                   "transport": "simulated; 'DC unreachable' = partition"}
     assumptions = ["the lattice sweep is enumeration of workload parameters through a two-step simulated history; simulation-specific: envelope via RPC, partition, Byzantine reply"]
     required_fired = ("cover_same", "cover_same-l1", "cover_l1-1", "cover_lower", "noncover", "shape_l2_omitted", "shape_l1_absent", "history_cover",
-                      "history_noncover", "byzantine_reply", "root_key_reloaded_with_other_parameters", "root_key_with_odd_edge_bytes")
+                      "history_noncover", "history_protect_from_seed", "byzantine_reply", "root_key_reloaded_with_other_parameters", "root_key_with_odd_edge_bytes")
 
     def exhaustive(self, tier):
         return tier == "thorough"
